@@ -419,3 +419,158 @@ def returns_failure(node):
     if node.ast is None or node.ast.value is None:
         return True
     return is_false_const(node.ast.value)
+
+
+# -- lightweight path sensitivity ------------------------------------------------------------------
+# Reachability in the product of the CFG with the truth values of *pure* atomic predicates
+# (comparisons / attribute tests over names, attributes and constants only).  Two tests with the
+# same canonical predicate must agree along a path unless a statement in between may change an
+# operand.  This removes syntactically present but contradictory paths such as
+# `x == y` false followed by `x != y` false.
+
+_CMP_NEG = {ast.Eq: ast.NotEq, ast.NotEq: ast.Eq, ast.Lt: ast.GtE, ast.GtE: ast.Lt, ast.Gt: ast.LtE, ast.LtE: ast.Gt,
+            ast.Is: ast.IsNot, ast.IsNot: ast.Is, ast.In: ast.NotIn, ast.NotIn: ast.In}
+_CMP_SWAP = {ast.Lt: ast.Gt, ast.Gt: ast.Lt, ast.LtE: ast.GtE, ast.GtE: ast.LtE, ast.Eq: ast.Eq, ast.NotEq: ast.NotEq}
+_CANON_POS = (ast.Eq, ast.Lt, ast.LtE, ast.Is, ast.In)
+
+
+def _pure(e):
+    for n in ast.walk(e):
+        if isinstance(n, (ast.Call, ast.Subscript, ast.Await, ast.Yield, ast.NamedExpr, ast.Lambda, ast.ListComp,
+                          ast.SetComp, ast.DictComp, ast.GeneratorExp)):
+            # len(x) on a pure name is allowed
+            if isinstance(n, ast.Call) and isinstance(n.func, ast.Name) and n.func.id == "len" and len(n.args) == 1:
+                continue
+            if isinstance(n, ast.Subscript) and isinstance(n.slice, ast.Constant):
+                continue
+            return False
+    return True
+
+
+def pred_key(test):
+    """(canonical key, polarity) for a pure atomic test, or None."""
+    if not _pure(test):
+        return None
+    if isinstance(test, ast.Compare) and len(test.ops) == 1:
+        op = type(test.ops[0])
+        l, r = ast.unparse(test.left), ast.unparse(test.comparators[0])
+        pol = True
+        if op in (ast.Gt, ast.GtE):  # a > b == b < a
+            op = _CMP_SWAP[op]
+            l, r = r, l
+        if op in (ast.Eq, ast.NotEq, ast.Is, ast.IsNot) and r < l:
+            l, r = r, l
+        if op not in _CANON_POS:
+            op = _CMP_NEG[op]
+            pol = False
+            if op in (ast.Gt, ast.GtE):
+                op = _CMP_SWAP[op]
+                l, r = r, l
+        return ("%s %s %s" % (l, op.__name__, r), pol)
+    if isinstance(test, (ast.Name, ast.Attribute)):
+        return ("truthy " + ast.unparse(test), True)
+    return None
+
+
+def _roots(e):
+    out = set()
+    for n in ast.walk(e):
+        if isinstance(n, ast.Name):
+            out.add(n.id)
+    return out
+
+
+def _kills(node):
+    """root names whose state a CFG node may change"""
+    a = node.ast
+    out = set()
+    if a is None or node.kind in ("test", "return", "raise", "join"):
+        return out
+    tgts = []
+    if node.kind == "for":
+        tgts = [a.target]
+    elif isinstance(a, ast.Assign):
+        tgts = a.targets
+    elif isinstance(a, (ast.AugAssign, ast.AnnAssign)):
+        tgts = [a.target]
+    elif isinstance(a, ast.Delete):
+        tgts = a.targets
+    elif isinstance(a, ast.With):
+        tgts = [it.optional_vars for it in a.items if it.optional_vars is not None]
+    for t in tgts:
+        out |= _roots(t)
+    root = a.iter if node.kind == "for" else a
+    if isinstance(root, (ast.FunctionDef, ast.ClassDef)):
+        return out
+    for c in ast.walk(root):
+        if isinstance(c, ast.Call):
+            if isinstance(c.func, ast.Attribute):
+                out |= _roots(c.func.value)
+            for x in c.args:
+                if isinstance(x, (ast.Name, ast.Attribute)):
+                    out |= _roots(x)
+    return out
+
+
+def reach_ps(cfg, sources, removed=frozenset(), blocked=frozenset(), targets=None, max_states=20000):
+    """Path-sensitive forward reachability.  Returns (reached node ids, witness path to a target or None)."""
+    targets = set(targets or ())
+    keys = {}
+    roots_of = {}
+    for n in cfg.nodes:
+        if n.kind == "test":
+            pk = pred_key(n.ast)
+            if pk:
+                keys[n.id] = pk
+                roots_of[pk[0]] = _roots(n.ast)
+    kills = {n.id: _kills(n) for n in cfg.nodes}
+    start = [(s, frozenset()) for s in sources if s not in blocked]
+    prev = {st: None for st in start}
+    dq = deque(start)
+    reached = set(s for s, _ in start)
+    hit = None
+    while dq:
+        cur = dq.popleft()
+        nid, facts = cur
+        if nid in targets:
+            hit = cur
+            break
+        if len(prev) > max_states:
+            # give up on path sensitivity: fall back to plain reachability (sound for alarms? no -> caller decides)
+            return None, None
+        k = kills.get(nid)
+        if k and facts:
+            facts = frozenset((pk, tv) for pk, tv in facts if not (roots_of.get(pk, set()) & k))
+        for b, label in cfg.succ[nid]:
+            if (nid, label) in removed or (nid, b, label) in removed or b in blocked:
+                continue
+            f2 = facts
+            if nid in keys and label in (True, False):
+                pk, pol = keys[nid]
+                tv = (label == pol)
+                d = dict(facts)
+                if pk in d:
+                    if d[pk] != tv:
+                        continue  # contradictory
+                else:
+                    f2 = facts | {(pk, tv)}
+            st = (b, f2)
+            if st in prev:
+                continue
+            prev[st] = (cur, label)
+            reached.add(b)
+            dq.append(st)
+    path = None
+    if hit is not None:
+        seq = []
+        cur = hit
+        lab = None
+        while cur is not None:
+            seq.append((cur[0], lab))
+            p = prev[cur]
+            if p is None:
+                break
+            cur, lab = p
+        seq.reverse()
+        path = seq
+    return reached, path
